@@ -135,7 +135,8 @@ pub fn make_conc_case(real_prop: &str, seed: u64, tier: Tier) -> Case {
     // ---- rounds
     let n_rounds = match prop {
         "C17" => r.range(2, 3),
-        "C16" | "C18" | "C08" | "C24" => r.range(1, 2),
+        "C08" => r.range(2, 4),
+        "C16" | "C18" | "C24" => r.range(1, 2),
         _ => r.range(1, 3),
     };
     let mut rounds = vec![];
@@ -206,7 +207,7 @@ pub fn make_conc_case(real_prop: &str, seed: u64, tier: Tier) -> Case {
                 let n = if let Some(f) = &focus { *r.pick(f) } else if !blk.is_empty() && r.pct(70) { *r.pick(&blk) } else if r.pct(50) { queryable[queryable.len() - 1 - r.usize(queryable.len().min(2))] } else { *r.pick(&queryable) };
                 let q = Req::Query { n, arg: r.below(m) as u32, deep: r.pct(50) };
                 let req = match prop {
-                    "C08" if r.pct(50) => Req::Intern { t: r.below(4) as u8, v: r.below(m) as u32 },
+                    "C08" if r.pct(60) => Req::Intern { t: *r.pick(&[0u8, 1, 1, 1, 2, 3]), v: r.below(2 * m) as u32 },
                     "C24" if r.pct(40) => Req::NewInput { v: r.below(1000) as u32 },
                     "C24" if r.pct(25) => Req::CloneQueryDrop { n, arg: 0 },
                     _ if r.pct(8) => Req::CloneQueryDrop { n, arg: 0 },
@@ -274,8 +275,21 @@ pub fn make_conc_case(real_prop: &str, seed: u64, tier: Tier) -> Case {
         12..=18 => "pctl",
         _ => "rr",
     };
+    // durability profile for the concurrent classes that involve writes / cancellation
+    let mut field_durs = vec![];
+    if matches!(prop, "C20" | "C21" | "C17") && r.pct(50) {
+        for i in 0..prog.n_inputs {
+            for f in 0..3 {
+                let d = *r.pick(&[Dur::Low, Dur::Low, Dur::Medium, Dur::High, Dur::High]);
+                if d != Dur::Low {
+                    field_durs.push((i as u16, f as u8, d));
+                }
+            }
+        }
+    }
     let conc = ConcCase {
         scenario: prop.to_string(),
+        field_durs,
         rounds,
         sched_seed: r.next(),
         strategy: strategy.to_string(),
@@ -539,11 +553,16 @@ pub fn make_case_e1(prop: &str, seed: u64, tier: Tier) -> Case {
             class = "accumulate".into();
         }
         "C26" => {
-            g.kinds = vec![(Kind::Plain, 10), (Kind::Multi, 3), (Kind::Mk, 4), (Kind::Ref, 1), (Kind::NoEq, 2), (Kind::Lru, 1)];
+            g.kinds = if r.pct(50) {
+                // chains of non-persisted functions under several persisted callers (edge flattening)
+                vec![(Kind::Plain, 8), (Kind::Multi, 2), (Kind::NoEq, 7), (Kind::Lru, 3), (Kind::Mk, 1)]
+            } else {
+                vec![(Kind::Plain, 10), (Kind::Multi, 3), (Kind::Mk, 4), (Kind::Ref, 1), (Kind::NoEq, 2), (Kind::Lru, 1)]
+            };
             g.on_ts = true;
             g.on_it = true;
             g.zero = true;
-            g.ts_ops = r.pct(60);
+            g.ts_ops = r.pct(50);
             g.intern_ops = r.pct(50);
             g.m_choices = vec![2, 3, 4, 8];
             g.nodes = (3, 9);
